@@ -603,6 +603,17 @@ func (s *Server) serveErrorDocument(w http.ResponseWriter, r *http.Request,
 		return
 	}
 
+	// The error document is object data like any other: the caller was only
+	// authorized for the key it asked for, so the error document's key needs its
+	// own GetObject authorization. Without permission the generic page is served.
+	bucketNameStr := bucketName.String()
+	authRequest, _ := makeAuthorizationRequest(ctx, authorization.OperationGetObject, &bucketNameStr, config.ErrorDocumentKey, r)
+	s.bindExistingObjectTagsResolver(authRequest, &bucketNameStr, config.ErrorDocumentKey, nil)
+	if authorized, authErr := s.requestAuthorizer.AuthorizeRequest(ctx, authRequest); authErr != nil || !authorized {
+		s.writeHTMLError(w, statusCode, code, message)
+		return
+	}
+
 	object, readers, err := s.storage.GetObject(ctx, bucketName, errorKey, nil, nil)
 	if err != nil {
 		// Error document not found — fall back to default HTML error
